@@ -3,6 +3,7 @@ scripted TCP device on loopback (C18).  Output per action: `<outcome>:<flag>:<ob
 from __future__ import annotations
 
 import asyncio
+import os
 import socket
 import warnings
 from typing import List
@@ -16,6 +17,41 @@ import common as C
 # C17
 
 
+def udp_sockets_of_this_process() -> dict:
+    """{inode: local port} of the bound UDP sockets this process holds (Linux /proc): what a bridge 'leaves behind' is looked for
+    here, whatever port number it sits on"""
+    inodes = set()
+    for fd in os.listdir("/proc/self/fd"):
+        try:
+            link = os.readlink(f"/proc/self/fd/{fd}")
+        except OSError:
+            continue
+        if link.startswith("socket:["):
+            inodes.add(int(link[8:-1]))
+    out = {}
+    for f in ("/proc/net/udp", "/proc/net/udp6"):
+        try:
+            lines = open(f).read().splitlines()[1:]
+        except OSError:
+            continue
+        for ln in lines:
+            p = ln.split()
+            try:
+                ino = int(p[9])
+            except (IndexError, ValueError):
+                continue
+            if ino in inodes:
+                out[ino] = int(p[1].split(":")[1], 16)
+    return out
+
+
+def _inode(sock) -> int:
+    return os.fstat(sock.fileno()).st_ino
+
+
+PORT_FORMS = {"list": list, "tuple": tuple, "set": set, "frozenset": frozenset, "keys": lambda ps: dict.fromkeys(ps).keys()}
+
+
 async def _bridge_life(nports: int, acts: List[str]) -> str:
     from aioswitcher.bridge import SwitcherBridge
     loop = asyncio.get_running_loop()
@@ -24,16 +60,28 @@ async def _bridge_life(nports: int, acts: List[str]) -> str:
     for a in acts:
         if a.startswith("bad:"):        # this configured port can never be bound (outside 0..65535: bind raises OverflowError, not OSError)
             ports[int(a[4:])] = 70000 + int(a[4:])
+    form = "list"
+    for a in acts:
+        if a.startswith("zero:"):       # this configured port is 0: the system chooses a free one at every start
+            ports[int(a[5:])] = 0
+        if a.startswith("as:"):         # the ports are handed over in another kind of container
+            form = a[3:]
     count = [0]
 
     def cb(device):
         count[0] += 1
-    bridge = SwitcherBridge(cb, list(ports))
+    bridge = SwitcherBridge(cb, PORT_FORMS[form](ports))
+    before = set(udp_sockets_of_this_process())     # whatever earlier cases may have left in this process is not this case's
     other_bridge = [None]       # a second bridge OBJECT configured with the same ports (created when first used)
     others = {}
     tx = socket.socket(socket.AF_INET, socket.SOCK_DGRAM)
     dgram = BH.sentinel_datagram(0).replace(BH.SENTINEL_NAME.encode(), b"xx-ordinary")
     out = []
+
+    def unaccounted():
+        """local ports of UDP sockets of this process that are neither the harness's nor sit on a configured (non-zero) port"""
+        mine = {_inode(tx)} | {_inode(x) for x in others.values()}
+        return [p for ino, p in udp_sockets_of_this_process().items() if ino not in before and ino not in mine and p not in ports]
     with warnings.catch_warnings(record=True):
         warnings.simplefilter("always")
         try:
@@ -87,6 +135,11 @@ async def _bridge_life(nports: int, acts: List[str]) -> str:
                         # (so a loaded machine cannot turn a delivery into a "dropped")
                         if ports[i] > 65535:             # nothing can be sent to (or listen on) a port that does not exist
                             got = False
+                        elif ports[i] == 0:              # the system's choice: whatever unaccounted-for socket there is, is it
+                            cand = unaccounted()
+                            for p in cand:
+                                tx.sendto(dgram, ("127.0.0.1", p))
+                            got = await BH.pump(lambda: count[0] > n0, timeout=2.0 if cand else 0.03)
                         else:
                             held_by_bridge = i not in others and not BH.bindable(ports[i])
                             tx.sendto(dgram, ("127.0.0.1", ports[i]))
@@ -103,7 +156,7 @@ async def _bridge_life(nports: int, acts: List[str]) -> str:
                         except OSError:
                             s.close()
                             res = "busy"
-                    elif a.startswith("bad:"):
+                    elif a.startswith("bad:") or a.startswith("zero:") or a.startswith("as:"):
                         pass
                     elif a.startswith("rel:"):
                         i = int(a[4:])
@@ -117,7 +170,11 @@ async def _bridge_life(nports: int, acts: List[str]) -> str:
                 # let the loop cycle so that closed transports release their ports
                 await asyncio.sleep(0)
                 await asyncio.sleep(0)
-                held = "".join("0" if (i in others or p > 65535 or BH.bindable(p)) else "1" for i, p in enumerate(ports))
+                loose = unaccounted()
+                held = "".join(("1" if loose else "0") if p == 0 else "0" if (i in others or p > 65535 or BH.bindable(p)) else "1"
+                               for i, p in enumerate(ports))
+                if len(loose) > sum(1 for p in ports if p == 0):
+                    res += f"+{len(loose)}-sockets-nobody-configured"      # more than the bridge was asked to listen on
                 out.append(f"{res}:{int(bridge.is_running)}:{held}")
         finally:
             try:
@@ -253,6 +310,28 @@ async def _client_life(api_type: str, acts: List[str]) -> str:
         t = getattr(w, "transport", None)
         if t is not None and all(t is not x for x in transports):
             transports.append(t)
+
+    # ANOTHER client object talking to the same device (actions o:cok, o:op, o:disc): nothing it does may show on the first
+    other = {"api": None, "transports": []}
+
+    def other_api():
+        if other["api"] is None:
+            other["api"] = cls("127.0.0.1", "a123bc", "18")
+        o = other["api"]
+        if hasattr(o, "_port") and hasattr(o, "_ip_address"):
+            o._ip_address, o._port = "127.0.0.1", dev.port
+        else:
+            target["port"] = dev.port
+        return o
+
+    def note_other():
+        w = getattr(other["api"], "_writer", None)
+        t = getattr(w, "transport", None)
+        if t is not None and all(t is not x for x in other["transports"]) and all(t is not x for x in transports):
+            other["transports"].append(t)
+
+    def other_open():
+        return sum(1 for t in other["transports"] if not t.is_closing())
     out = []
     try:
         for a in acts:
@@ -282,6 +361,18 @@ async def _client_life(api_type: str, acts: List[str]) -> str:
                     r = await (api.get_state() if api_type == "type1" else api.stop())
                 elif a == "disc":
                     await api.disconnect()
+                elif a.startswith("o:"):
+                    o = other_api()
+                    try:
+                        if a == "o:cok":
+                            await o.connect()
+                        elif a == "o:disc":
+                            await o.disconnect()
+                        else:
+                            await (o.get_state() if api_type == "type1" else o.stop())
+                    except Exception:  # noqa - what happens to the OTHER client is not this property's business here
+                        pass
+                    note_other()
                 elif a == "withref":            # `async with` while the device refuses the connection: the error comes out of the
                     aim(dead)                   # entry, the client stays as it was
                     async with api:
@@ -318,14 +409,15 @@ async def _client_life(api_type: str, acts: List[str]) -> str:
             # the end-of-stream has travelled through the loop: wait for that (up to 2 s, so that a loaded machine cannot make the
             # observation early), then report the device's own count whatever it is.
             note_transport()
-            want = sum(1 for t in transports if not t.is_closing())
+            want = sum(1 for t in transports if not t.is_closing()) + other_open()
             for _ in range(4000):
                 await asyncio.sleep(0.0005)
                 if dev.open == want:
                     break
-                want = sum(1 for t in transports if not t.is_closing())
+                want = sum(1 for t in transports if not t.is_closing()) + other_open()
             await asyncio.sleep(0.001)
-            out.append(f"{res}:{int(api.connected)}:{dev.open}" + ("R" if dev.resets else ""))
+            # the device's connections that are not the other client's are this client's
+            out.append(f"{res}:{int(api.connected)}:{dev.open - other_open()}" + ("R" if dev.resets else ""))
             dev.resets = 0
     finally:
         A.open_connection = saved
@@ -333,6 +425,13 @@ async def _client_life(api_type: str, acts: List[str]) -> str:
             await asyncio.wait_for(api.disconnect(), 2)
         except Exception:
             pass
+        if other["api"] is not None:
+            try:
+                await asyncio.wait_for(other["api"].disconnect(), 2)
+            except Exception:
+                pass
+        for t in other["transports"]:
+            t.abort()
         for t in transports:            # whatever the client left open (a leak is reported above, it must not hang the harness:
             t.abort()                   # Server.wait_closed() waits for every connection)
         try:
